@@ -57,6 +57,8 @@ def full_rank_hyps(args, cfg):
 
 def run(chk):
     chk.level = "proof"
+    from props import backend_conformance
+    backend_conformance.run(chk, "C16", names=('lstsq', 'svd', 'eigh', 'solve', 'qr'))
     chk.assume("exact arithmetic: IterativeOperatorWInfo(M, CG) means psolve(M), the limit tol -> 0 of CG started from 0 on the PSD matrix M "
                "(the finite-tolerance residual contract is C12's); get_precision(dtype) is a positive ghost constant eps(dtype)")
     chk.assume("the CG rule's regulariser c A^H (c = eps * max(shape), 1e-15 * max(shape) in double precision) is part of the contract, "
